@@ -74,7 +74,7 @@ class Verdict:
     # ---- concluding
     def conclude(self) -> int:
         known = [e for e in load_known() if e.get("property") == self.prop]
-        REPLAYS.mkdir(exist_ok=True)
+        REPLAYS.mkdir(parents=True, exist_ok=True)
         new_viol = 0
         known_hits: Dict[str, int] = {}
         lines: List[str] = []
@@ -115,7 +115,7 @@ class Verdict:
         return status
 
     def write_evidence(self, n_viol: int, status: int, missed):
-        EVIDENCE.mkdir(exist_ok=True)
+        EVIDENCE.mkdir(parents=True, exist_ok=True)
         cov = dict(self.coverage)
         cov["evaluations"] = int(self.evaluations)
         cov["distinct_nontrivial"] = int(len(self.nontrivial_hashes))
